@@ -41,6 +41,8 @@ type Backend struct {
 	takenBatches [][]string
 	takenReplies []Reply
 	CmdReply     string // reply to commands ("" = none)
+	RawStrings   bool   // texts are written byte by byte like a core does (see rawJSON)
+	ResetCmd     bool   // a closing backend (closeearly) drops a command's connection with unread bytes queued: the sender reads ECONNRESET, not EOF
 	Queries      int
 	listener     net.Listener
 	Now          func() time.Time
@@ -139,14 +141,45 @@ func (b *Backend) serve(conn net.Conn) {
 	b.mu.Lock()
 	b.connSeq++
 	cid := b.connSeq
+	bytewise := b.ResetCmd
 	b.mu.Unlock()
 	batch := -1
+	readLine := func() (string, error) {
+		if !bytewise {
+			return rd.ReadString('\n')
+		}
+		// nothing is read ahead: what the backend did not ask for stays queued in the socket
+		var sb strings.Builder
+		one := make([]byte, 1)
+		for {
+			n, err := conn.Read(one)
+			if n == 1 {
+				sb.WriteByte(one[0])
+				if one[0] == '\n' {
+					return sb.String(), nil
+				}
+			}
+			if err != nil {
+				return sb.String(), err
+			}
+		}
+	}
 	for {
 		lines := []string{}
 		for {
 			_ = conn.SetReadDeadline(time.Now().Add(30 * time.Second))
-			line, err := rd.ReadString('\n')
+			line, err := readLine()
 			line = strings.TrimRight(line, "\r\n")
+			if bytewise && err == nil && len(lines) == 0 && strings.HasPrefix(line, "COMMAND ") {
+				// the command line is all this backend reads before it decides
+				if !b.handle(conn, []string{line}, cid, &batch) {
+					time.Sleep(100 * time.Millisecond) // the rest of the request arrives and stays unread
+
+					return
+				}
+
+				continue
+			}
 			if err != nil {
 				if line != "" {
 					lines = append(lines, line)
@@ -591,6 +624,11 @@ func (b *Backend) answer(req *request) (code int, body []byte) {
 		if i > 0 {
 			sb.WriteString(",\n")
 		}
+		if b.RawStrings {
+			rawJSON(&sb, line)
+
+			continue
+		}
 		enc, err := json.Marshal(line)
 		if err != nil {
 			return 500, []byte(err.Error())
@@ -600,6 +638,44 @@ func (b *Backend) answer(req *request) (code int, body []byte) {
 	sb.WriteString("]\n")
 
 	return 200, []byte(sb.String())
+}
+
+// rawJSON writes a value the way the cores do: a text is its bytes between quotes, only the quote and the backslash are
+// escaped - control bytes and bytes that are not UTF-8 go out as they are (U+E080..U+E0FF stands for the byte 0x80..0xFF).
+func rawJSON(sb *strings.Builder, v interface{}) {
+	switch val := v.(type) {
+	case string:
+		sb.WriteByte('"')
+		for _, r := range val {
+			switch {
+			case r == '"' || r == '\\':
+				sb.WriteByte('\\')
+				sb.WriteRune(r)
+			case r >= 0xE080 && r <= 0xE0FF:
+				sb.WriteByte(byte(r - 0xE000))
+			default:
+				sb.WriteRune(r)
+			}
+		}
+		sb.WriteByte('"')
+	case []interface{}:
+		sb.WriteByte('[')
+		for i, e := range val {
+			if i > 0 {
+				sb.WriteByte(',')
+			}
+			rawJSON(sb, e)
+		}
+		sb.WriteByte(']')
+	default:
+		enc, err := json.Marshal(v)
+		if err != nil {
+			sb.WriteString("null")
+
+			return
+		}
+		sb.Write(enc)
+	}
 }
 
 // virtualCols adds computed columns (localtime, lmd_last_cache_update) to a row view.
